@@ -158,6 +158,7 @@ def check_graph(ns, I, seed, res, only=None):
                             a0 = mk(verb, imp, exc, "named", other, fam_kind, pat)
                         if decoy is not None:
                             run_rule(a0, decoy)  # same pattern, other architecture, other rule object
+                            run_rule(a, decoy)  # ... and the rule object under test itself is re-used
                             if res is not None:
                                 res.transitions += 1
                                 res.stats["pattern-first-resolved-on-other-architecture"] += 1
